@@ -10,6 +10,7 @@ CONSTANTS
   PublishAfterUnlock = FALSE
   CreatedRevalidated = TRUE
   DeleteHoldsLock = TRUE
+  SnapHoldsLock = TRUE
   DeleteRechecks = TRUE
   Equiv = "none"
   SubSer = FALSE
